@@ -587,7 +587,11 @@ func (in *Interp) fmtArg(fr *frame, v Value, verb byte, fl fmtFlags) []strPart {
 	case *RType:
 		return lit(x.String())
 	case *RValue:
-		return lit("<reflect.Value>")
+		// fmt prints the value a reflect.Value holds
+		if x.t == nil {
+			return lit("<invalid reflect.Value>")
+		}
+		return in.fmtArg(fr, Iface{t: x.t, v: in.rvGet(fr, x)}, verb, fl)
 	case nil:
 		return lit("<nil>")
 	case *FuncV:
